@@ -73,6 +73,39 @@ elif name == 'F1_fork_keeps_eventfd':
     /* The state of any thread''')
 elif name == 'F2_fork_keeps_pending':
     rep('    h->pending = 0;\n', '    (void) 0;\n')
+elif name == 'S1_stop_breaks_scan':
+    rep('''    h->async_cb(h);
+  }''', '''    h->async_cb(h);
+
+    /* Honour uv_stop() promptly; the rest keep their pending flag. */
+    if (loop->stop_flag != 0) {
+      while (!uv__queue_empty(&queue)) {
+        q = uv__queue_head(&queue);
+        uv__queue_remove(q);
+        uv__queue_insert_tail(&loop->async_handles, q);
+      }
+      break;
+    }
+  }''')
+elif name == 'P1_poll_init_checks_fd_first':
+    pp = path + '/src/unix/poll.c'
+    t = open(pp).read()
+    a = '''  if (uv__fd_exists(loop, fd))
+    return UV_EEXIST;
+
+  err = uv__io_check_fd(loop, fd);
+  if (err)
+    return err;
+'''
+    assert a in t
+    t = t.replace(a, '''  err = uv__io_check_fd(loop, fd);
+  if (err)
+    return err;
+
+  if (uv__fd_exists(loop, fd))
+    return UV_EEXIST;
+''')
+    open(pp, 'w').write(t)
 elif name == 'R1_refactor':
     rep('  atomic_fetch_add(busy, -1);\n', '  atomic_fetch_sub(busy, 1);\n')
     rep('  uv__queue_remove(&handle->queue);\n  uv__handle_stop(handle);', '  uv__handle_stop(handle);\n  uv__queue_remove(&handle->queue);')
